@@ -86,6 +86,16 @@ def make_cases(tier, seed, n_random=None, n_productive=None):
     gr = G("N0", frozenset("ab"), ring)
     for sr in ("Float", "Real"):
         cases.append(dict(name="ring60", g=gr, sr=sr, rename="id", order=None, pop="real", maxlen=0))
+    # a strongly connected block BELOW the top one that uses up the default budget of agenda pops (105 000 of 100 000): the block is
+    # abandoned a hair short of its fixed point and the blocks above it must still be evaluated (seeded change C08-9)
+    slow = G("N0", frozenset("abcd"), [(F(1), "N0", ("N1", "b")), (F(1), "N0", ("N2", "c")), (F(1, 2), "N2", ("N1", "N1")), (F(1, 2), "N2", ("d",)),
+                                       (F(99982, 100000), "N1", ("a", "N1")), (F(18, 100000), "N1", ("a",))])
+    cases.append(dict(name="slow_lower_block", g=slow, sr="Float", rename="id", order=None, pop="real", maxlen=0, abs_tol=1e-5))
+    # a derivation of weight 1e-14 whose yield has 2**50 tokens: the weight component of the expectation semiring has long converged
+    # when its length component arrives (seeded change C08-10)
+    rare = [(F(1, 2), "N0", ("a",)), (F(1), "N0", ("N1", "b")), (F(1, 10**14), "N1", ("L50",)), (F(1), "L0", ("a",))]
+    rare += [(F(1), f"L{k}", (f"L{k - 1}", f"L{k - 1}")) for k in range(1, 51)]
+    cases.append(dict(name="long_rare_derivation", g=G("N0", frozenset("ab"), rare), sr="Float", rename="id", order=None, pop="real", maxlen=0, abs_tol=1e-9))
     return cases
 
 
@@ -151,16 +161,18 @@ def check_case(case):
     try:
         t, exact = cfgspec.treesums(ops, gs)
         amp = 1.0
-        if not ops.idempotent:
+        if not ops.idempotent and "abs_tol" not in case:
             amp = lenspec.amplification(bridge.spec_grammar(g, "Q"))
     except ArithmeticError:
         return out                      # divergent / critical: outside the property's domain
-    if amp > 1e4:
-        return out                      # ill-conditioned: skipped, not reported
+    if amp > 1e4 and "abs_tol" not in case:
+        return out                      # ill-conditioned: skipped, not reported (hand-made cases state their own slack)
     if sr in ("FloatFrac", "Q") and not exact:
         sr = "Float"                    # Fractions blow up inside the fixed-point iteration of a nonlinear block
         R, _, conv, val = bridge.SEMIRINGS[sr]
     abs_tol = 0.0 if sr == "Boolean" else max(1e-9, 1e-10 * amp)
+    if "abs_tol" in case:
+        abs_tol = case["abs_tol"]
     if sr == "Log" and case["name"].endswith("#tiny"):
         # the log semiring's own convergence test is a distance between SCORES (relative in probability space): totals of 1e-30 must
         # be right to the same relative precision, so no absolute slack here (relative 1e-8 * amplification as everywhere)
